@@ -64,7 +64,7 @@ Proof. intros ->; auto. Qed.
 
 Ltac fxind2 e :=
   induction e as [p|p| |c|c|g|a b c|s f IHf|s f IHf|v f IHf|f IHf g IHg|f IHf c|f IHf t|f IHf a u c
-                 |f IHf g IHg|f IHf|qb IHq|k f IHf g IHg].
+                 |f IHf g IHg|f IHf|qb IHq|k f IHf g IHg|pb P].
 
 Section G.
 Variable sqrtf : R -> R.
@@ -116,6 +116,7 @@ Proof.
     assert (L1 : length (firstn k x) = k) by (rewrite firstn_length; lia).
     assert (L2 : length (skipn k x) = (n - k)%nat) by (rewrite skipn_length; lia).
     rewrite app_length, (IHf k _ _ _ H1 L1 E1), (IHg (n - k)%nat _ _ _ H2 L2 E2). lia.
+  - (* FPair *) destruct Hl as [_ Hgl]. exact (Hgl w pb x r Lx Hg).
 Qed.
 
 (* -------------------------------------------------------------- leaf facts *)
@@ -309,6 +310,9 @@ Proof.
     pose proof (IHg (n - k)%nat _ _ _ _ _ Hwf2 (wpos_skipn k w Hw) (Ls w Lw) (Ls x Lx) G2 E2 C2) as H2.
     rewrite (wdot_split k w x (g1 ++ g2)).
     rewrite F1, F2. apply geq_sum; assumption.
+  - (* FPair *) cbn [wf] in Hwf. destruct Hwf as (_ & _ & Hok). destruct (Hok w Hw Lw) as (_ & Hge).
+    cbn [grad value] in Hg, Hv. unfold Rules.cval in Hc. cbn [cconj value] in Hc.
+    exact (Hge pb x gx vx vg Lx Hg Hv Hc).
 Qed.
 
 End G.
